@@ -116,7 +116,7 @@ func customFunc(n *Node) func(t *sp.Task) {
 		}
 		o := s.Shell.CustomStart(node.Name, inPaths, pkv)
 		s.SleepNS(o.DurNS)
-		if o.Fail == simrt.FailExitBefore || o.Fail == simrt.FailSignal {
+		if o.Fail == simrt.FailExitBefore {
 			s.Fault(o.Fail.String())
 			s.Shell.CustomEnd(o, 1)
 			sp.Fail("injected failure of the Go function of task " + o.Key + " before writing")
@@ -127,7 +127,7 @@ func customFunc(n *Node) func(t *sp.Task) {
 				s.Fault(o.Fail.String())
 				continue // the function "forgets" one declared output
 			}
-			if o.Fail == simrt.FailExitPartial && oi == o.FailArg%len(node.Outs) {
+			if (o.Fail == simrt.FailExitPartial || o.Fail == simrt.FailSignal) && oi == o.FailArg%len(node.Outs) {
 				data = data[:len(data)/2]
 			}
 			oip := t.OutIP(os.Name)
@@ -143,6 +143,11 @@ func customFunc(n *Node) func(t *sp.Task) {
 				s.Fault(o.Fail.String())
 				s.Shell.CustomEnd(o, 1)
 				sp.Fail("injected failure of the Go function of task " + o.Key + " after a partial write")
+			}
+			if o.Fail == simrt.FailSignal && oi == o.FailArg%len(node.Outs) {
+				s.Fault("gofunc-panic")
+				s.Shell.CustomEnd(o, 2)
+				panic("injected panic in the Go function of task " + o.Key + " after a partial write")
 			}
 		}
 		if o.Fail == simrt.FailExitAfter {
